@@ -431,7 +431,7 @@ def accessor_rules(facts, rep, D):
                 if a[1][0] == "agg" and a[1][1].endswith("RangeFrom"):
                     st = dict(a[1][3]).get("start")
                     pats = [x for x in walk(st) if x[0] == "call" and x[1] in ("str::rfind",)]
-                    ok = bool(pats) and all(p[2][1] == ("char", "/") for p in pats) and D._one_index_from_find(st, a[0], True)
+                    ok = bool(pats) and all(p[2][1] == ("char", "/") for p in pats) and D.index_from_find(st, a[0], True)  # (phi: the match spelling of map(+1).unwrap_or(0))
         n += 1
         rep.ob("R06.7", fi.id, "filename = path[rfind('/') + 1 ..] (or the whole path)", ok, "" if ok else
                "filename_internal does not cut exactly after the last '/'", fi.span)
